@@ -1,5 +1,5 @@
 """C11 — no safe operation yields an invalid hash object (the structural clauses; widest check)."""
-from ..rules import validate, tail, fields, eqord, vis, panic, parser, typestate
+from ..rules import validate, tail, fields, eqord, vis, panic, parser, typestate, witness
 
 EXPL = ("Decides: SA-VIS: the representation of all hash/target/generator types is private, no exported safe function hands out &mut "
         "into it, accumulating initialisers/views/encoders/_internal functions are not exported, exported *_unchecked are unsafe - so "
@@ -30,7 +30,12 @@ def run(ctx):
         ctx.guard("C11", "like", lambda: fields.like_index(ctx, prog))
         ctx.guard("C11", "sym", lambda: eqord.len_index_symmetry(ctx, prog))
         ctx.guard("C11", "typestate", lambda: typestate.clear_before_accumulate(ctx, prog))
+        ctx.guard("C11", "lenmask", lambda: typestate.length_follows_masks(ctx, prog))
         ctx.guard("C11", "total-valid", lambda: panic.totality_of_validity(ctx, prog))
         ctx.guard("C11", "total-parse", lambda: parser.totality(ctx, prog))
         ctx.guard("C11", "fresh", lambda: parser.symbol_store(ctx, prog))
+    if ctx.tier == "thorough":
+        ctx.cfg = "witness"
+        ctx.guard("C11", "witness", lambda: witness.run(ctx, "witness", ["W1", "W2", "W3", "W4", "W6", "W7", "W8"]))
+        ctx.guard("C11", "witness-u", lambda: witness.run(ctx, "witness_unchecked", ["U1", "U2", "U3"]))
     return ctx.finish(EXPL, ["Generator::finalize_raw_internal's sz/sz+1 bookkeeping is a stated exception of SA-TAIL", "core APIs panic only as documented"])
